@@ -73,3 +73,7 @@ package bufcas
 //@   property C08 C13
 //@   ensures err == nil ==> path != "" && validRel(path) && Normalize(path) == path && digest != nil
 //@   ensures path != "" && validRel(path) && Normalize(path) == path && digest != nil ==> err == nil
+//
+//@ func newFileNode(path, digest) (r)
+//@   property C08
+//@   ensures r != nil && r.path == path && r.digest == digest
